@@ -4,7 +4,7 @@ From Coq Require Export List Arith ZArith NArith Bool Lia.
 Export ListNotations.
 
 (** Node identities: allocated in creation order; Python's [is] is [Nat.eqb]. *)
-Definition id := nat.
+Notation id := nat (only parsing).
 
 (** Strings are lists of Unicode code points. *)
 Definition str := list N.
